@@ -345,6 +345,48 @@ def r4_count_write_pairing(ctx, rule):
             ctx.unk(rule, q, 'no write found in the output point')
 
 
+def r12_output_point_total(ctx, rule):
+    """print_guess writes whatever it is given: every path through it (debug mode apart) reaches the write.
+
+    Callers count a guess (num_guesses += 1, limit -= count) next to the call, so a guess the output point decides not to
+    write - too long, not printable, a duplicate - is counted but never produced: --limit N yields fewer than N lines and
+    the derivation can never be drawn (seed C16-f)."""
+    from ..cfg import CFG
+    q = PG + 'print_guess'
+    fn = ctx.fn(q)
+    mod = ctx.repo.modules[PGF]
+    cfg = CFG(fn)
+    writes = []
+    for st in walk_stmts(fn.body):
+        if isinstance(st, ast.Expr) and isinstance(st.value, ast.Call) and call_name(st.value) == 'print':
+            f = kwarg(st.value, 'file')
+            if f is None or U(f) in ('sys.stdout', 'sys.__stdout__'):
+                writes.append(st)
+    if len(writes) != 1:
+        ctx.unk(rule, q, '%d stdout writes in the output point (expected 1)' % len(writes))
+        return
+    w = writes[0]
+    wn = cfg.node_of(w)
+    dbg = [nid for nid, n in cfg.nodes.items() if n.kind == 'test' and isinstance(n.stmt, ast.If)
+           and U(n.stmt.test) in ('not self.debug', 'self.debug')]
+    avoid = set()
+    for nid in dbg:
+        avoid.add((nid, 'F' if U(cfg.nodes[nid].stmt.test) == 'not self.debug' else 'T'))
+    ctx.stats['paths'] += 1
+    arg_ok = w.value.args and U(w.value.args[0]) == params(fn)[1] and len(w.value.args) == 1
+    if not arg_ok:
+        ctx.bad(rule, q, 'writes ' + U(w.value)[:60], 'the output point writes exactly the guess it was given, one per line', None, w)
+        return
+    if not cfg.every_path_passes(cfg.entry, cfg.exit, {wn}, avoid_edges=avoid):
+        wp = cfg.witness_path(cfg.entry, cfg.exit, avoid=[wn])
+        ctx.bad(rule, q, 'a path through print_guess skips the write',
+                'the callers count every guess they hand to print_guess; a guess that print_guess drops is counted but never '
+                'written, so --limit N produces fewer than N lines and that guess can never appear in the output',
+                {'witness': cfg.describe(wp) if wp else None}, fn)
+        return
+    ctx.ok(rule, q, 'every non-debug path through print_guess executes print(guess)')
+
+
 def r5_grouping_kernel(ctx, rule):
     qual = GIO + '_load_from_file'
     fn = ctx.fn(qual)
@@ -468,7 +510,7 @@ def rules(tier):
     return [('C04.R1', r1_dispatch), ('C04.R2', r2_structural_recursion), ('C04.R3', r3_mask_slices),
             ('C04.R4', r4_count_write_pairing), ('C04.R5', r5_grouping_kernel), ('C04.R7', r7_group_cardinality),
             ('C04.R8', _exact_float),
-            ('C04.R9', _mask_insertion), ('C04.R10', _omen_last), ('C04.R11', _omen_cursor)] + _loader_bundle() + []
+            ('C04.R9', _mask_insertion), ('C04.R10', _omen_last), ('C04.R11', _omen_cursor), ('C04.R12', r12_output_point_total)] + _loader_bundle() + []
 
 
 META = {
